@@ -313,3 +313,88 @@ class _NFABuilder:
                         st.append(y)
             self._clo[s] = seen
         return self._clo[s]
+
+
+# ---------------------------------------------------------------------------------------------
+# Ordered-choice (backtracking) matcher over a vector of symbolic code points.
+# Enumerates the match paths of CPython's backtracking engine IN PRIORITY ORDER; each path carries the
+# condition (a conjunction of character-class predicates) under which it succeeds.  The match the
+# engine returns is the first path whose condition holds.  Exact for the supported constructs
+# (no assumption about which match is returned); exponential only in the number of alternatives.
+
+def backtrack_paths(R, chars, start, anchored_end, limit=20000):
+    """-> list of (conds: [z3 Bool], end: int, groups: {idx: (s, e)}) in priority order, for a match
+    attempt that starts at position `start`"""
+    n = len(chars)
+    out = []
+    count = [0]
+
+    def seq(items, i, pos, conds, groups, k):
+        if i == len(items):
+            yield from k(pos, conds, groups)
+            return
+        op, av = items[i]
+        if op in (sc.LITERAL, sc.NOT_LITERAL, sc.ANY, sc.IN):
+            if pos >= n:
+                return
+            rs, neg = R._class_ranges(op, av)
+            p = R.class_pred(rs, neg, chars[pos])
+            if z3.is_false(p):
+                return
+            yield from seq(items, i + 1, pos + 1, conds if z3.is_true(p) else conds + [p], groups, k)
+            return
+        if op in (sc.MAX_REPEAT, sc.MIN_REPEAT):
+            lo, hi, sub = av
+            sub = list(sub)
+            greedy = op == sc.MAX_REPEAT
+
+            def rep(cnt, pos, conds, groups):
+                def more():
+                    if hi == sc.MAXREPEAT or cnt < hi:
+                        def after(p2, c2, g2):
+                            if p2 == pos and cnt >= lo:
+                                return      # zero-width iteration: no progress
+                            yield from rep(cnt + 1, p2, c2, g2)
+                        yield from seq(sub, 0, pos, conds, groups, after)
+
+                def stop():
+                    if cnt >= lo:
+                        yield from seq(items, i + 1, pos, conds, groups, k)
+                if greedy:
+                    yield from more()
+                    yield from stop()
+                else:
+                    yield from stop()
+                    yield from more()
+            yield from rep(0, pos, conds, groups)
+            return
+        if op == sc.SUBPATTERN:
+            gid, _, _, sub = av
+
+            def after(p2, c2, g2):
+                g3 = dict(g2)
+                if gid is not None:
+                    g3[gid] = (pos, p2)
+                yield from seq(items, i + 1, p2, c2, g3, k)
+            yield from seq(list(sub), 0, pos, conds, groups, after)
+            return
+        if op == sc.BRANCH:
+            for alt in av[1]:
+                yield from seq(list(alt) + items[i + 1:], 0, pos, conds, groups, k)
+            return
+        raise Unsupported(op)
+
+    def final(pos, conds, groups):
+        count[0] += 1
+        if count[0] > limit:
+            raise Unsupported('too many backtracking paths')
+        if anchored_end:
+            if pos == n:
+                yield (conds, pos, groups)
+            elif pos == n - 1:
+                yield (conds + [chars[n - 1] == 10], pos, groups)
+        else:
+            yield (conds, pos, groups)
+    for r in seq(list(R.core), 0, start, [], {}, final):
+        out.append(r)
+    return out
